@@ -2,6 +2,8 @@
 C02  Minified output parses back to the same program; no token fusion.
 
 proof   lean/CalmVerif/Props/C02.lean over Model.Unparse with the regenerated Gen.Defs / Gen.Rules.minify0/minify1.
+typing  the hypothesis `wfVal` of the *_stream_typed theorems is evaluated by drv_rt on every tree printed (obligation
+        'slot typing holds on every parsed tree').
 tie     S3/S4 real minify printers (drop_semi off/on) vs Model.Unparse; S2 real parser vs Model.Parser on the outputs.
 judge   (always, on the implementation; parts/roundtrip.py)  minify_print(tree, obfuscate=False, drop_semi in {False, True}):
         M1/M2 re-parsed by the real parser to the same structure, M3/M4 accepted by the ES5.1 reference parser with the same
@@ -19,7 +21,7 @@ from parts import roundtrip as R
 from parts import unparse_tie as ut
 
 SPEC = dict(gen=['defs', 'rules', 'tables', 'actions', 'lexdata', 'unicodecat'], props=['CalmVerif.Props.C02'],
-            drivers=['drv_unparse', 'drv_spec', 'drv_parse'], audit='Audit/C02.lean')
+            drivers=['drv_unparse', 'drv_spec', 'drv_parse', 'drv_rt'], audit='Audit/C02.lean')
 
 
 def jobs_of(text, wcs=(False, True)):
@@ -63,6 +65,7 @@ def run(ctx):
     ctx.obligation('judge: minified output re-parses (real parser and ES5 reference) to the same program, token sequence unchanged, '
                    'dropped semicolons restored by ASI', not (bad or bad2), 'judge',
                    '%d + %d (program, comments, drop_semi) cases judged; %d unexplained failures' % (n, n2, len(bad) + len(bad2)))
+    R.slot_typing(ctx, spec, res + res2)
     trng = ctx.sub_rng('tie')
     items = list(R.FIXED) + trng.sample(texts, min(len(texts), ctx.n(40, 800))) + [t for t, _ in trng.sample(pick, ctx.n(60, 600))]
     R.tie(ctx, spec, items, minify_configs(), lambda t: jobs_of(t, (False,)))
